@@ -11,7 +11,7 @@ one() {
   name=$1; S=/verif/seeded/$name; ID=${name%%-*}
   D=$(mktemp -d /tmp/rs.XXXXXX)
   git -C /repo worktree add -q --detach "$D/wt" HEAD || { echo "$name BROKEN worktree"; rm -rf $D; return; }
-  if ! git -C "$D/wt" apply $S/patch.diff 2>/dev/null; then echo "$name NOAPPLY"; git -C /repo worktree remove --force "$D/wt"; rm -rf $D; return; fi
+  if ! git -C "$D/wt" apply $S/patch.diff 2>/dev/null && ! { git -C "$D/wt" apply -3 $S/patch.diff >/dev/null 2>&1 && [ -z "$(git -C "$D/wt" diff --name-only --diff-filter=U)" ]; }; then echo "$name NOAPPLY"; git -C /repo worktree remove --force "$D/wt"; rm -rf $D; return; fi
   if ! (cd "$D/wt" && go build ./... ) >$D/build.log 2>&1; then echo "$name BROKEN build"; git -C /repo worktree remove --force "$D/wt"; rm -rf $D; return; fi
   mkdir -p "$D/v/bin" "$D/v/evidence" "$D/v/replays"; cp -r /verif/harness "$D/v/harness"; cp /verif/bin/vcheck "$D/v/bin/"; cp /verif/known-findings.txt "$D/v/"
   sed -i "s#=> /repo#=> $D/wt#" "$D/v/harness/go.mod"
